@@ -55,6 +55,7 @@ type eventSpec struct {
 	WS      uint64    `json:"ws"`
 	Via     string    `json:"via"` // direct (istructs level, harness-held generator) | cmd (command processor)
 	Sync    bool      `json:"sync,omitempty"`
+	APIv2   bool      `json:"apiv2,omitempty"` // cmd only: through an APIv2 path (camel-cased, re-encoded reply)
 	Arg     *nodeSpec `json:"arg,omitempty"`
 	Creates []rowSpec `json:"creates,omitempty"`
 	Updates []rowSpec `json:"updates,omitempty"`
@@ -246,6 +247,13 @@ func (x *runner) cmd(ev *eventSpec) error {
 	ev.Obs = obs
 	body := map[string]any{}
 	resource := "c.sys.CUD"
+	if ev.Sync {
+		// c.sys.Init: the command processor builds a synced event (GetSyncRawEventBuilder); CUDs only
+		if ev.Arg != nil {
+			return fmt.Errorf("a synced command (c.sys.Init) carries CUDs only")
+		}
+		resource = "c.sys.Init"
+	}
 	if ev.Arg != nil {
 		resource = "c.test.CmdODoc"
 		body["args"] = nodeJSON(ev.Arg, 0, true)
@@ -272,7 +280,11 @@ func (x *runner) cmd(ev *eventSpec) error {
 		body["cuds"] = cuds
 	}
 	b, _ := json.Marshal(body)
-	rep, err := r.life.send(istructs.WSID(ev.WS), resource, b)
+	rep, err := r.life.send(istructs.WSID(ev.WS), resource, b, ev.APIv2)
+	keyNewIDs, keyOffset := "NewIDs", "CurrentWLogOffset"
+	if ev.APIv2 {
+		keyNewIDs, keyOffset = "newIDs", "currentWLogOffset"
+	}
 	if err != nil {
 		return fmt.Errorf("command send: %w", err)
 	}
@@ -295,15 +307,15 @@ func (x *runner) cmd(ev *eventSpec) error {
 	}
 	obs.Accepted = true
 	obs.Offset = uint64(r.plogNext)
-	if m, ok := rep.Body["NewIDs"].(map[string]any); ok {
+	if m, ok := rep.Body[keyNewIDs].(map[string]any); ok {
 		for k, v := range m {
 			raw, _ := strconv.ParseUint(k, 10, 64)
 			st, _ := strconv.ParseUint(fmt.Sprint(v), 10, 64)
 			obs.NewIDs = append(obs.NewIDs, pair{raw, st})
 		}
 	}
-	if off, err := strconv.ParseUint(fmt.Sprint(rep.Body["CurrentWLogOffset"]), 10, 64); err != nil || off != uint64(r.wlogNext[wsid]) {
-		obs.Err = fmt.Sprintf("reply reports WLog offset %v, expected %d", rep.Body["CurrentWLogOffset"], r.wlogNext[wsid])
+	if off, err := strconv.ParseUint(fmt.Sprint(rep.Body[keyOffset]), 10, 64); err != nil || off != uint64(r.wlogNext[wsid]) {
+		obs.Err = fmt.Sprintf("reply reports WLog offset %v, expected %d", rep.Body[keyOffset], r.wlogNext[wsid])
 	}
 	r.plogNext++
 	r.wlogNext[wsid]++
@@ -602,7 +614,11 @@ func (sc *scenario) coq() string {
 		var arg []rowSpec
 		flatten(ev.Arg, 0, &arg)
 		o := ev.Obs
-		ops = append(ops, fmt.Sprintf("OEvent %d (mkEv %s %s %s %s) (mkObs %s %s %s %s %s %s)",
+		ctor := "OEvent"
+		if ev.Via == "cmd" && ev.APIv2 {
+			ctor = "OEventV2"
+		}
+		ops = append(ops, fmt.Sprintf(ctor+" %d (mkEv %s %s %s %s) (mkObs %s %s %s %s %s %s)",
 			ev.WS, kit.Bool(ev.Sync), rowsCoq(arg, nil), rowsCoq(ev.Creates, ev.Singles), rowsCoq(ev.Updates, nil),
 			kit.Bool(o.Accepted), pairsCoq(o.NewIDs), rowsCoq(o.Arg, nil), rowsCoq(o.Creates, nil), rowsCoq(o.Updates, nil), rowsCoq(o.Records, nil)))
 		if ev.Via == "cmd" && o.Logged {
